@@ -17,6 +17,10 @@ func main() {
 	harness := flag.String("harness", "/verif/harness", "harness directory ('' = none)")
 	tests := flag.Bool("tests", false, "instrument the library's tests too (passthrough validation)")
 	flag.Parse()
+	if *out == "" {
+		fmt.Fprintln(os.Stderr, "bbsim-instr: -out <directory> is required (the output is written there, over whatever it holds)")
+		os.Exit(2)
+	}
 	st, err := instr.BuildScratch(instr.Scratch{RepoDir: *repo, VerifDir: "/verif", GoRoot: runtime.GOROOT(), OutDir: *out,
 		WithTests: *tests, HarnessDir: *harness, ModCache: "/root/go/pkg/mod"})
 	if err != nil {
